@@ -12,6 +12,8 @@ TYPES = {
     "string": ("input", "string", {}, {}),
     "integer": ("input", "int", {}, {}),
     "int": ("input", "int", {}, {}),
+    # a legacy type with a built-in constraint; a constraint cell on the row replaces it
+    "percentage": ("input", "int", {"constraint": "0 <= . and . <= 100"}, {}),
     "decimal": ("input", "decimal", {}, {}),
     "note": ("input", "string", {"readonly": "true()"}, {}),
     "date": ("input", "date", {}, {}),
